@@ -67,6 +67,13 @@ func genC13(seed uint64, index int, tier string) *run.Plan {
 		}
 	}
 	total := p.P["blocks"] * p.P["block_ms"]
+	pauseAt := -1
+	if g.Intn(3) == 0 {
+		p.P["pause_blk"] = 1 + g.Intn(p.P["blocks"])
+		p.P["pause_ms"] = []int{8000, 20000, 45000}[g.Intn(3)] + 137 + 2*g.Intn(40)
+		pauseAt = p.P["pause_blk"] * p.P["block_ms"]
+		total += p.P["pause_ms"]
+	}
 	// workload
 	callers := 1 + g.Intn(5)
 	if tier == "thorough" {
@@ -87,6 +94,32 @@ func genC13(seed uint64, index int, tier string) *run.Plan {
 			}
 			p.Ops = append(p.Ops, op)
 		}
+		if pauseAt >= 0 && g.Intn(2) == 0 {
+			// a wait that is pending when the last block before the pause arrives
+			p.Ops = append(p.Ops, run.Op{Kind: "wait", Caller: c, AtMs: max(0, pauseAt-g.Intn(2*p.P["block_ms"])), A: g.Intn(3) - 1,
+				B: []int{p.P["block_ms"] * 3, p.P["pause_ms"] / 2, p.P["pause_ms"] - 1000}[g.Intn(3)] + g.Intn(7)})
+		}
+	}
+	if g.Intn(2) == 0 {
+		// a poller: one more caller that waits for the current or the next block with a timeout around the block
+		// interval, over and over - every window that a switch of the best connection opens is met by some call
+		c := callers
+		p.P["callers"] = callers + 1
+		period := p.P["block_ms"]*(1+g.Intn(2)) + g.Intn(p.P["block_ms"])
+		k := g.Intn(2)
+		for i, at := 0, g.Intn(period); i < 40 && at < total; i, at = i+1, at+period {
+			to := []int{p.P["block_ms"] / 2, p.P["block_ms"], p.P["block_ms"] * 2}[g.Intn(3)] + g.Intn(7)
+			p.Ops = append(p.Ops, run.Op{Kind: "wait", Caller: c, AtMs: at, A: k, B: to})
+		}
+	}
+	if ns > 1 && g.Intn(2) == 0 {
+		// the round-trip time of a server changes for good (a route change): best-ping switches between live
+		// connections, also to one that is a block behind
+		n := 1 + g.Intn(3)
+		for i := 0; i < n; i++ {
+			p.Faults = append(p.Faults, run.Fault{Kind: "rtt", Host: g.Intn(ns), AtMs: g.Intn(total + 1),
+				A: []int{100, 2000, 30000, 150000, 400000}[g.Intn(5)] + g.Intn(50)})
+		}
 	}
 	if g.Intn(3) == 0 {
 		p.P["calm"] = 1 // no liveness faults, no stalls: completeness oracle W3 applies
@@ -94,18 +127,23 @@ func genC13(seed uint64, index int, tier string) *run.Plan {
 	}
 	nf := g.Intn(4)
 	for i := 0; i < nf; i++ {
-		k := []string{"close", "reset", "blackhole", "refuse", "nopong"}[g.Intn(5)]
+		k := []string{"close", "reset", "blackhole", "refuse", "nopong", "down", "down"}[g.Intn(7)]
 		f := run.Fault{Kind: k, Host: g.Intn(ns), AtMs: g.Intn(total + 1)}
 		switch k {
 		case "close":
 			f.A = g.Intn(3)
-		case "refuse", "nopong":
+		case "refuse", "nopong", "down":
 			f.A = []int{2000, 12000, 40000}[g.Intn(3)]
 		}
 		p.Faults = append(p.Faults, f)
 	}
 	if g.Intn(2) == 0 {
 		n := 1 + g.Intn(3)
+		if ns > 1 && g.Intn(3) == 0 {
+			// a uniformly slow Run loop: every notification (or refresh) is late by a few milliseconds, so the head
+			// updates of several connections pile up in the queue
+			p.Stalls = append(p.Stalls, core.Stall{Role: "(*ConnPool).Run", Site: []string{"(*ConnPool).notifySubscribers", "(*ConnPool).notifySubscribers", "(*ConnPool).updateBest"}[g.Intn(3)], Nth: 1 + g.Intn(3), Every: 1, DelayMs: []int{1, 7, 40, 150}[g.Intn(4)]})
+		}
 		for i := 0; i < n; i++ {
 			st := core.Stall{Role: c13roles[g.Intn(len(c13roles))], Site: c13sites[g.Intn(len(c13sites))], Nth: 1 + g.Intn(8), DelayMs: []int{1, p.P["block_ms"], p.P["block_ms"] * 3, p.P["block_ms"] * 8}[g.Intn(4)]}
 			switch g.Intn(4) {
@@ -539,9 +577,29 @@ func execC13(t *testing.T, w *core.World, p *run.Plan, r *run.Result) {
 	}
 
 	// ---- chain: blocks are produced every interval; servers follow with their lag unless frozen ----
+	// a pause: after block pause_blk the masterchain produces nothing for pause_ms (longer than most waits):
+	// a wake-up that is lost is no longer repaired by the next block one interval later
+	pauseBlk, pauseDur := p.Get("pause_blk", 0), time.Duration(p.Get("pause_ms", 0))*time.Millisecond
+	blockAt := func(b int) time.Duration {
+		t := tReady + time.Duration(b)*blockIv
+		if pauseBlk > 0 && b > pauseBlk {
+			t += pauseDur
+		}
+		return t
+	}
+	blocksBy := func(t time.Duration) int {
+		n := 0
+		for n < nblocks && blockAt(n+1) <= t {
+			n++
+		}
+		return n
+	}
+	if pauseBlk > 0 && pauseBlk < nblocks {
+		w.Probe("chain-pause")
+	}
 	for b := 1; b <= nblocks; b++ {
 		b := b
-		at := tReady + time.Duration(b)*blockIv
+		at := blockAt(b)
 		w.AtAbs(at, fmt.Sprintf("block %d", head0+b), func() { globalHead = uint32(head0 + b) })
 		for i := 0; i < ns; i++ {
 			i := i
@@ -553,7 +611,7 @@ func execC13(t *testing.T, w *core.World, p *run.Plan, r *run.Result) {
 			})
 		}
 	}
-	chainEnd := tReady + time.Duration(nblocks+1)*blockIv
+	chainEnd := blockAt(nblocks) + blockIv
 	lastFault := tReady
 	hostConns := func(hi int) []*core.Conn {
 		var out []*core.Conn
@@ -577,16 +635,19 @@ func execC13(t *testing.T, w *core.World, p *run.Plan, r *run.Result) {
 			w.AtAbs(end, fmt.Sprintf("srv%d catches up", hi), func() {
 				frozen[hi] = false
 				lag := time.Duration(p.Get(fmt.Sprintf("s%d_lag_ms", hi), 0)) * time.Millisecond
-				target := uint32(head0) + uint32((w.Now()-lag-tReady)/blockIv)
-				if target > uint32(head0+nblocks) {
-					target = uint32(head0 + nblocks)
-				}
+				target := uint32(head0 + blocksBy(w.Now()-lag))
 				if target > servers[hi].Head+1 {
 					w.Probe("catch-up-burst")
 				}
 				for s := servers[hi].Head + 1; s <= target; s++ {
 					servers[hi].SetHead(s) // one by one: every long-poll for an intermediate block is answered at once
 				}
+			})
+		case "rtt":
+			end = at
+			w.AtAbs(at, fmt.Sprintf("srv%d pong delay becomes %dus", hi, f.A), func() {
+				servers[hi].Beh.PongDelayUs = f.A
+				w.Net.Fired["rtt-shift"]++
 			})
 		case "close":
 			w.AtAbs(at, fmt.Sprintf("fault close srv%d", hi), func() {
@@ -610,6 +671,18 @@ func execC13(t *testing.T, w *core.World, p *run.Plan, r *run.Result) {
 					c.Blackhole(150 * time.Second)
 				}
 			})
+		case "down":
+			// the server goes away for a while: its connections are reset and it cannot be dialled until it is back
+			end = at + time.Duration(f.A)*time.Millisecond
+			w.AtAbs(at, fmt.Sprintf("fault down srv%d", hi), func() {
+				hosts[hi].Refuse = true
+				w.Net.Fired["server-down"]++
+				for _, c := range hostConns(hi) {
+					servers[hi].DropConn(c)
+					c.Reset()
+				}
+			})
+			w.AtAbs(end, fmt.Sprintf("srv%d is back", hi), func() { hosts[hi].Refuse = false })
 		case "refuse":
 			end = at + time.Duration(f.A)*time.Millisecond
 			w.AtAbs(at, fmt.Sprintf("fault refuse srv%d", hi), func() { hosts[hi].Refuse = true })
@@ -619,7 +692,7 @@ func execC13(t *testing.T, w *core.World, p *run.Plan, r *run.Result) {
 			w.AtAbs(at, fmt.Sprintf("fault nopong srv%d", hi), func() { servers[hi].Beh.NoPong = true; w.Net.Fired["no-pong"]++ })
 			w.AtAbs(end, fmt.Sprintf("heal nopong srv%d", hi), func() { servers[hi].Beh.NoPong = false })
 		}
-		if f.Kind != "freeze" && end > lastFault {
+		if f.Kind != "freeze" && f.Kind != "rtt" && end > lastFault {
 			lastFault = end
 		}
 	}
@@ -653,7 +726,10 @@ func execC13(t *testing.T, w *core.World, p *run.Plan, r *run.Result) {
 		o.started, o.start, o.callStep = true, w.Now(), w.StepNow()
 		if o.op.Kind == "wait" {
 			o.seqno = uint32(int(globalHead) + o.op.A)
-			o.timeout = time.Duration(o.op.B) * time.Millisecond
+			// sub-microsecond offsets: every other instant of the simulation is a whole number of microseconds, so the
+			// call's own timer never fires at the very instant a notification arrives (Go's select would flip an
+			// unseedable coin between the two ready cases)
+			o.timeout = time.Duration(o.op.B)*time.Millisecond + 333*time.Nanosecond
 		}
 		mu.Unlock()
 		var err error
@@ -662,12 +738,12 @@ func execC13(t *testing.T, w *core.World, p *run.Plan, r *run.Result) {
 			if o.op.C > 0 {
 				var cancel context.CancelFunc
 				ctx, cancel = context.WithCancel(ctx)
-				o.cancelAt = o.start + time.Duration(o.op.C)*time.Millisecond
+				o.cancelAt = o.start + time.Duration(o.op.C)*time.Millisecond + 777*time.Nanosecond
 				w.AtAbs(o.cancelAt, fmt.Sprintf("cancel caller %d op %d", o.caller, o.k), cancel)
 			}
 			err = pl.WaitMasterchainSeqno(ctx, o.seqno, o.timeout)
 		case "best":
-			c2, cancel := context.WithTimeout(ctx, 2*time.Second)
+			c2, cancel := context.WithTimeout(ctx, 2*time.Second+555*time.Nanosecond)
 			cl, head, e := pl.BestMasterchainClient(c2)
 			cancel()
 			err = e
@@ -903,7 +979,16 @@ func execC13(t *testing.T, w *core.World, p *run.Plan, r *run.Result) {
 					}
 					cancelledBeforeSubscribed = o.subAt >= 0 && o.cancelAt <= o.subAt
 				}
-				if o.reached && o.reachedAt < trueDeadline && o.end <= trueDeadline && !cancelledBeforeSubscribed && !poolSideStalled {
+				// a stalled Run / connection goroutine legitimately delays the notification: excused iff such a stall
+				// was in force during the last millisecond before the deadline (without stalls the way from the stored
+				// head to the waiter takes no simulated time; stalls that ended earlier only postponed it to their end)
+				stalledAtDeadline := false
+				for _, sw := range w.Sched.Windows {
+					if !strings.Contains(sw.Role, "execC13") && sw.From < trueDeadline && sw.To > trueDeadline-time.Millisecond {
+						stalledAtDeadline = true
+					}
+				}
+				if o.reached && o.reachedAt < trueDeadline-time.Millisecond && o.end <= trueDeadline && !cancelledBeforeSubscribed && !stalledAtDeadline {
 					w.Violate("C13.W5", "C13.W5|missed-head", fmt.Sprintf("%s for seqno %d: the best connection reported a head at or beyond it at %v (the call was pending since %v, subscribed at %v, deadline %v), yet the call returned %q", name, o.seqno, o.reachedAt, o.start, o.subAt, trueDeadline, o.err))
 				}
 				if o.cancelAt > 0 && o.cancelAt <= o.start+o.timeout {
@@ -912,7 +997,24 @@ func execC13(t *testing.T, w *core.World, p *run.Plan, r *run.Result) {
 					w.Probe("wait-timeout")
 				}
 				// W3: completeness in the calm phase
-				if calm && o.op.A <= 1 && o.caller != 99 && o.cancelAt == 0 && o.timeout >= 4*blockIv+20*time.Second+time.Duration(maxLag(p, ns))*time.Millisecond && o.start+o.timeout < chainEnd {
+				// (a server that sits on masterchain-info requests delays the first head, and every re-synchronisation
+				// after a failed block wait, by that much: not calm)
+				infoUsable := p.Get("hold_info_ms", 0) == 0
+				// The call must see heads flow: from the later of its start and the production of the target block, the
+				// chain keeps producing for two intervals + refresh period + lag (a best connection that is switched to
+				// with the awaited head already stored says nothing until its next block; during a pause that is long)
+				tb := int(o.seqno) - head0
+				from := o.start
+				if tb >= 1 && tb <= nblocks && blockAt(tb) > from {
+					from = blockAt(tb)
+				}
+				need := 2*blockIv + 20*time.Second + time.Duration(maxLag(p, ns))*time.Millisecond
+				flowing := from+need < chainEnd
+				if pauseBlk > 0 && pauseBlk < nblocks && from+need > blockAt(pauseBlk) && from < blockAt(pauseBlk+1) {
+					flowing = false
+				}
+				if calm && infoUsable && o.op.A <= 1 && o.caller != 99 && o.cancelAt == 0 && tb <= nblocks && flowing &&
+					from+need <= o.start+o.timeout {
 					w.Violate("C13.W3", "C13.W3|missed-head", fmt.Sprintf("calm run: %s for seqno %d (best head + %d) with timeout %v returned %q", name, o.seqno, o.op.A, o.timeout, o.err))
 				}
 			}
@@ -972,6 +1074,52 @@ func execC13(t *testing.T, w *core.World, p *run.Plan, r *run.Result) {
 			}
 			hist = append(hist, e)
 		}
+		// Direct (polynomial) conditions of a max-register first: a read returns a value that was handed to that
+		// connection before the read returned (a), not less than any value whose write completed before the read began
+		// (b), and reads that do not overlap are monotone (c).
+		regBad := ""
+		for _, r1 := range hist {
+			if r1.write || regBad != "" {
+				continue
+			}
+			explained := false
+			for _, e := range hist {
+				if e.conn != r1.conn {
+					continue
+				}
+				if e.write && e.v == r1.v && e.call < r1.ret {
+					explained = true
+				}
+				if e.write && e.v > r1.v && e.ret < r1.call {
+					regBad = fmt.Sprintf("read of connection %d returned %d [%d,%d] although head %d had been stored by step %d", r1.conn, r1.v, r1.call, r1.ret, e.v, e.ret)
+				}
+				if !e.write && e.ret < r1.call && e.v > r1.v {
+					regBad = fmt.Sprintf("read of connection %d returned %d [%d,%d] after an earlier read [%d,%d] had returned %d", r1.conn, r1.v, r1.call, r1.ret, e.call, e.ret, e.v)
+				}
+			}
+			if !explained && regBad == "" {
+				regBad = fmt.Sprintf("read of connection %d returned %d [%d,%d]: no server had handed that head to the connection by then", r1.conn, r1.v, r1.call, r1.ret)
+			}
+		}
+		if regBad != "" {
+			w.Violate("C13.head", "C13.head|register-not-linearizable", "the heads returned by BestMasterchainClient are not explained by the heads the servers handed to each connection (max-register): "+regBad)
+		}
+		// porcupine on what is left: only writes whose value some read of that connection returned matter for the
+		// search once (b) has been checked directly; the others only multiply the interleavings
+		readVals := map[wkey]bool{}
+		for _, e := range hist {
+			if !e.write {
+				readVals[wkey{e.conn, e.v}] = true
+			}
+		}
+		kept := hist[:0:0]
+		for _, e := range hist {
+			if e.write && !readVals[wkey{e.conn, e.v}] {
+				continue
+			}
+			kept = append(kept, e)
+		}
+		hist = kept
 		for i, e := range hist {
 			ret := e.ret
 			if ret <= e.call {
@@ -983,7 +1131,10 @@ func execC13(t *testing.T, w *core.World, p *run.Plan, r *run.Result) {
 				v     uint32
 			}{e.conn, e.write, e.v}, Call: int64(e.call) * 2, Output: e.v, Return: int64(ret)*2 + 1})
 		}
-		if len(pops) <= 400 {
+		if len(pops) > 400 {
+			w.Probe("porcupine-skipped-history-too-long")
+		}
+		if len(pops) <= 400 && regBad == "" {
 			type in = struct {
 				key   int
 				write bool
